@@ -773,6 +773,12 @@ class CeiloChunk(AbstractChunk):
             raise AmpycloudError('Slicing not yet done. You cannot find groups without ' +
                                  'finding slices first !')
 
+        # If the layering was already done, re-running the grouping would overwrite the group ids on
+        # which the layers rely. Refuse *before* altering anything.
+        if self._layers is not None:
+            raise AmpycloudError('Layering already done. If you look for groups now, you will ' +
+                                 'loose the layering information !')
+
         # First, make sure that we can keep track of the isolation status of slices.
         self._slices['isolated'] = None
 
